@@ -40,8 +40,37 @@ def exception_key(e):
     return "exception:%s@%s" % (type(e).__name__, where)
 
 
+SLOT_DIR = "/tmp/verif_slots"
+N_SLOTS = int(os.environ.get("VERIF_MACHINE_SLOTS", "16"))
+
+
+def _acquire_slot():
+    """Machine-wide cap on concurrently *working* workers (several checks / mutant runs may be started at the same
+    time by different people; without a cap they exhaust memory). Blocks until one of N_SLOTS lock files is free.
+    Taken before jax/optimism are imported, released when the worker process exits (maxtasksperchild=1)."""
+    import fcntl
+    os.makedirs(SLOT_DIR, exist_ok=True)
+    fds = []
+    start = os.getpid() % N_SLOTS
+    while True:
+        for i in range(N_SLOTS):
+            path = os.path.join(SLOT_DIR, "slot_%02d" % ((start + i) % N_SLOTS))
+            fd = os.open(path, os.O_CREAT | os.O_RDWR, 0o666)
+            try:
+                fcntl.flock(fd, fcntl.LOCK_EX | fcntl.LOCK_NB)
+                return fd
+            except OSError:
+                os.close(fd)
+        time.sleep(0.5 + (os.getpid() % 7) * 0.1)
+
+
+_SLOT = [None]
+
+
 def _worker(args):
     pid, g, tier, seed, only, quiet = args
+    if _SLOT[0] is None:
+        _SLOT[0] = _acquire_slot()
     from mc.core import Recorder
     if quiet:
         devnull = open(os.devnull, "w")
@@ -71,8 +100,9 @@ def load_findings(pid):
     if not os.path.exists(path):
         return {}, []
     data = json.load(open(path))
+    # an open finding may be shared by several properties ("also": [...]), e.g. the batched eigen-decomposition defect
     openf = {f["key"]: f for f in data.get("findings", [])
-             if f.get("property") == pid and f.get("status") == "open"}
+             if (f.get("property") == pid or pid in f.get("also", [])) and f.get("status") == "open"}
     fixed = [f for f in data.get("findings", []) if f.get("property") == pid and f.get("status") == "fixed"]
     return openf, fixed
 
@@ -217,7 +247,7 @@ def _run(pid, groups, tier, seed, only, workers, quiet, onlys=None):
     if n == 1 and os.environ.get("VERIF_INPROC") == "1":
         return [_worker(j) for j in jobs]
     ctx = mp.get_context("spawn")
-    with ctx.Pool(n, maxtasksperchild=None) as pool:
+    with ctx.Pool(n, maxtasksperchild=1) as pool:
         # heaviest-first ordering is the module's business (groups() order); chunksize 1
         res = pool.map(_worker, jobs, chunksize=1)
     return res
